@@ -1604,19 +1604,91 @@ theorem getConfig_param {qc : Dict} {l e : PyVal} {c : String} (h : getConfig qc
   subst this
   simp only [hcfg, hnm, hentry, bind, Except.bind]
 
+theorem pyKeyEq_refl {k : PyVal} (h : hashable k = .ok ()) : pyKeyEq k k = true := by
+  cases k with
+  | none => rfl
+  | bool b => cases b <;> simp [pyKeyEq, keyNum]
+  | num m e => simp [pyKeyEq, keyNum]
+  | str s => simp [pyKeyEq]
+  | list xs => simp [hashable] at h
+  | dict d => simp [hashable] at h
+
+/-- **The one-entry dictionary serves its entry to the layer it is keyed by, whatever that layer is
+    called.**  For every layer `inner` whose name `key` is hashable, every class key and every
+    parameter: `get_config({key: entry}, inner, cls, p)` is `entry` (resp. `entry.get(p)`) — the name
+    of a wrapped layer (forward or explicit backward) and its class play no role. -/
+theorem C12_bidirectional_one_entry_lookup (key entry inner c : PyVal)
+    (hc : sub inner "config" = .ok c) (hk : sub c "name" = .ok key) (hh : hashable key = .ok ())
+    (cls : String) (p : Option String) :
+    getConfigOne key entry inner cls p = paramOf entry p := by
+  have hs : hashable (.str cls) = .ok () := rfl
+  unfold getConfigOne oneGet
+  simp only [hc, hk, hh, hs, pyKeyEq_refl hh, bind, Except.bind, pure, Except.pure, if_true]
+
+/-- the converse, which is why the key matters: a one-entry dictionary keyed by a string that is
+    neither the layer's own name nor `"Q" + class` offers that layer nothing (every lookup is
+    `None`), so `quantize_rnn` leaves the layer as it is -/
+theorem getConfigOne_foreign_key {k n cn : String} {entry inner : PyVal}
+    (hn : nameOf inner = some (.str n)) (h1 : k ≠ n) (h2 : k ≠ "Q" ++ cn) (p : Option String) :
+    getConfigOne (.str k) entry inner ("Q" ++ cn) p = .ok .none := by
+  unfold getConfigOne
+  cases hpc : pget inner "config" with
+  | none => simp [nameOf, cfgGet, hpc] at hn
+  | some cfg =>
+    have hpn : pget cfg "name" = some (.str n) := by
+      simpa [nameOf, cfgGet, hpc] using hn
+    have e1 : pyKeyEq (.str ("Q" ++ cn)) (.str k) = false := by
+      simp only [pyKeyEq, decide_eq_false_iff_not]
+      exact fun h => h2 h.symm
+    have e2 : pyKeyEq (.str n) (.str k) = false := by
+      simp only [pyKeyEq, decide_eq_false_iff_not]
+      exact fun h => h1 h.symm
+    have hs1 : hashable (.str ("Q" ++ cn)) = .ok () := rfl
+    have hs2 : hashable (.str n) = .ok () := rfl
+    simp only [sub_of_pget hpc, sub_of_pget hpn, oneGet, hs1, hs2, e1, e2, bind, Except.bind, pure,
+      Except.pure]
+    cases p <;> rfl
+
+theorem bidirSide_foreign_key_unchanged {look : Look} {bits k n cn : String} {keyLayer inner inner' : PyVal}
+    (hkey : nameOf keyLayer = some (.str k)) (hn : nameOf inner = some (.str n))
+    (hcls : clsOf inner = some (.str cn)) (h1 : k ≠ n) (h2 : k ≠ "Q" ++ cn)
+    (h : bidirSide look bits keyLayer inner = .ok inner') : inner' = inner := by
+  unfold bidirSide at h
+  obtain ⟨c, hc, h⟩ := bind_ok h
+  obtain ⟨key, hk, h⟩ := bind_ok h
+  obtain ⟨e, _, h⟩ := bind_ok h
+  obtain ⟨u, _, h⟩ := bind_ok h
+  have : key = .str k := by
+    simp [nameOf, cfgGet, sub_ok hc, sub_ok hk] at hkey
+    exact hkey
+  subst this
+  exact quantizeRnn_unselected' hcls (fun p => getConfigOne_foreign_key hn h1 h2 p) h
+
+/-- `bidirInner` with the wrapper's entry `e` is `quantize_rnn` with the name-independent lookup
+    `entry.get(parameter)` -/
+theorem bidirInner_exact {look : Look} {bits : String} {e inner inner' : PyVal}
+    (he : look "QBidirectional" none = .ok e) (h : bidirInner look bits inner = .ok inner') :
+    quantizeRnn (fun _ p => paramOf e p) bits inner = .ok inner' := by
+  unfold bidirInner bidirSide at h
+  obtain ⟨c, hc, h⟩ := bind_ok h
+  obtain ⟨key, hk, h⟩ := bind_ok h
+  obtain ⟨e', he', h⟩ := bind_ok h
+  rw [he] at he'
+  cases he'
+  obtain ⟨u, hu, h⟩ := bind_ok h
+  cases u
+  have : getConfigOne key e inner = fun _ p => paramOf e p := by
+    funext cls p
+    exact C12_bidirectional_one_entry_lookup key e inner c hc hk hu cls p
+  rw [this] at h
+  exact h
+
 theorem bidirInner_spec {look : Look} {bits icn : String} {e kq inner inner' : PyVal}
     (he : look "QBidirectional" none = .ok e) (hicls : clsOf inner = some (.str icn))
     (hkq : paramOf e (some "kernel_quantizer") = .ok kq) (hne : kq ≠ .none)
     (h : bidirInner look bits inner = .ok inner') :
-    RnnConverted (fun _ p => paramOf e p) icn kq inner inner' := by
-  unfold bidirInner at h
-  obtain ⟨c, _, h⟩ := bind_ok h
-  obtain ⟨iname, _, h⟩ := bind_ok h
-  obtain ⟨e', he', h⟩ := bind_ok h
-  rw [he] at he'
-  cases he'
-  obtain ⟨u, _, h⟩ := bind_ok h
-  exact quantizeRnn_spec hicls hkq hne h
+    RnnConverted (fun _ p => paramOf e p) icn kq inner inner' :=
+  quantizeRnn_spec hicls hkq hne (bidirInner_exact he h)
 
 /-- A Bidirectional wrapper whose `QBidirectional` lookup `e` (name entry first, then the class
     entry) provides a kernel quantizer becomes a QBidirectional whose wrapped layer — and backward
@@ -1733,6 +1805,228 @@ theorem C12_selected_bidirectional (F : Flags) (qc : Dict) (st st' : Option Stri
     rw [efc]
     exact hfr.cfg k (by simp [hk1, hk2])
 
+
+/-! ### both directions of a Bidirectional wrapper (strengthening round, seed C12-10)
+
+    A `Bidirectional(layer, backward_layer=...)` carries two independent layer configurations: the
+    explicit backward layer has its own name, and may have its own class, `use_bias`, activation.
+    The theorems below say that each direction is converted on its own terms from the wrapper's
+    entry alone. -/
+
+/-- from a selected Bidirectional step to `bidirApply` and the `registered_name` fix-up -/
+theorem bidir_step_apply {F : Flags} {qc : Dict} {st st' : Option String} {l l' e kq : PyVal}
+    (hcls : clsOf l = some (.str "Bidirectional"))
+    (he : getConfig qc l "QBidirectional" none = .ok e)
+    (hkq : paramOf e (some "kernel_quantizer") = .ok kq) (hne : kq ≠ .none)
+    (h : step F qc st l = .ok (l', st')) :
+    ∃ l1, bidirApply F (getConfig qc l) l = .ok l1 ∧ Eff [] ["registered_name"] l1 l' := by
+  unfold step stepCore at h
+  obtain ⟨r, hb, h⟩ := bind_ok h
+  obtain ⟨l1, st1, fin⟩ := r
+  unfold branch at hb
+  obtain ⟨c0, hc0, hb⟩ := bind_ok hb
+  obtain ⟨cls, hcls', hb⟩ := bind_ok hb
+  have : cls = .str "Bidirectional" := by
+    have := sub_ok hcls'
+    have hc := hcls
+    rw [clsOf] at hc
+    rw [hc] at this
+    exact (Option.some.inj this).symm
+  subst this
+  simp only [show ("Bidirectional" ∈ denseLike) = False by decide,
+    show ("Bidirectional" = "DepthwiseConv2D") = False by decide,
+    show ("Bidirectional" = "SeparableConv1D" ∨ "Bidirectional" = "SeparableConv2D") = False by decide,
+    show ("Bidirectional" = "SimpleRNN" ∨ "Bidirectional" = "LSTM" ∨ "Bidirectional" = "GRU") = False by decide,
+    if_false, if_true] at hb
+  unfold bidirBranch at hb
+  obtain ⟨kq', hkq', hb⟩ := bind_ok hb
+  rw [getConfig_param he, hkq] at hkq'
+  cases hkq'
+  have hmain : fin = true ∧ bidirApply F (getConfig qc l) l = .ok l1 := by
+    cases kq with
+    | none => exact absurd rfl hne
+    | bool _ | num _ _ | str _ | list _ | dict _ =>
+      all_goals
+        simp only at hb
+        obtain ⟨l2, hl2, hb⟩ := bind_ok hb
+        cases hb
+        exact ⟨rfl, hl2⟩
+  obtain ⟨hfin, happ⟩ := hmain
+  subst hfin
+  simp only [if_true] at h
+  obtain ⟨l5, hl5, h⟩ := bind_ok h
+  cases h
+  exact ⟨l1, happ, fixRegistered_spec hl5⟩
+
+/-- **Each direction is `quantize_rnn` of that direction's own configuration with the wrapper's
+    entry, and nothing else.**  For a selected Bidirectional wrapper (entry `e` with a kernel
+    quantizer): the new `layer` is exactly `quantize_rnn(layer, e.get)`, the new `backward_layer`
+    — when the source has an explicit one — is exactly `quantize_rnn(backward_layer, e.get)` (its own
+    name, class, `use_bias`, activation decide; the forward layer and the rest of the dictionary do
+    not occur), and a wrapper without an explicit backward layer does not get one. -/
+theorem C12_bidirectional_sides_exact (F : Flags) (qc : Dict) (st st' : Option String) (l l' : PyVal)
+    (hcls : clsOf l = some (.str "Bidirectional")) (e kq : PyVal)
+    (he : getConfig qc l "QBidirectional" none = .ok e)
+    (hkq : paramOf e (some "kernel_quantizer") = .ok kq) (hne : kq ≠ .none)
+    (h : step F qc st l = .ok (l', st')) :
+    (∀ inner, cfgGet l "layer" = some inner →
+      ∃ inner', quantizeRnn (fun _ p => paramOf e p) F.actBits inner = .ok inner' ∧
+        cfgGet l' "layer" = some inner') ∧
+    (∀ binner, cfgGet l "backward_layer" = some binner →
+      ∃ binner', quantizeRnn (fun _ p => paramOf e p) F.actBits binner = .ok binner' ∧
+        cfgGet l' "backward_layer" = some binner') ∧
+    (cfgGet l "backward_layer" = none → cfgGet l' "backward_layer" = none) := by
+  obtain ⟨l1, happ, efix⟩ := bidir_step_apply hcls he hkq hne h
+  have efc : ∀ k, cfgGet l' k = cfgGet l1 k := fun k => efix.cfg k (by simp)
+  unfold bidirApply at happ
+  obtain ⟨cfg, hcfg, happ⟩ := bind_ok happ
+  obtain ⟨inner0, hinner0, happ⟩ := bind_ok happ
+  obtain ⟨inner0', hinner0', happ⟩ := bind_ok happ
+  obtain ⟨l2, hl2, happ⟩ := bind_ok happ
+  obtain ⟨l3, hl3, happ⟩ := bind_ok happ
+  have s2 := setCfg_spec hl2
+  have s4 := setCls_spec happ
+  have top4 : ∀ k, cfgGet l1 k = cfgGet l3 k := fun k => cfgGet_of_top (s4.2 "config" (by decide)) k
+  have hinnerv : cfgGet l "layer" = some inner0 := by
+    simp [cfgGet, sub_ok hcfg, sub_ok hinner0]
+  have hbl2 : cfgGet l2 "backward_layer" = cfgGet l "backward_layer" := s2.2.1 _ (by decide)
+  -- the backward step, exactly
+  have hback : cfgGet l3 "layer" = some inner0' ∧
+      (∀ binner, cfgGet l "backward_layer" = some binner →
+        ∃ binner', quantizeRnn (fun _ p => paramOf e p) F.actBits binner = .ok binner' ∧
+          cfgGet l3 "backward_layer" = some binner') ∧
+      (cfgGet l "backward_layer" = none → cfgGet l3 "backward_layer" = none) := by
+    unfold bidirBackward at hl3
+    obtain ⟨cfg2, hcfg2, hl3⟩ := bind_ok hl3
+    have hcfg2' := sub_ok hcfg2
+    cases cfg2 with
+    | dict d =>
+      simp only at hl3
+      cases hbk : dget d "backward_layer" with
+      | none =>
+        simp only [hbk] at hl3
+        cases hl3
+        refine ⟨s2.1, fun binner hbi => ?_, fun _ => ?_⟩
+        · rw [← hbl2] at hbi
+          simp [cfgGet, hcfg2', hbk] at hbi
+        · simp [cfgGet, hcfg2', hbk]
+      | some binner0 =>
+        simp only [hbk] at hl3
+        obtain ⟨binner0', hb0, hl3⟩ := bind_ok hl3
+        have s3 := setCfg_spec hl3
+        have hsrc : cfgGet l "backward_layer" = some binner0 := by
+          rw [← hbl2]
+          simp [cfgGet, hcfg2', hbk]
+        refine ⟨by rw [s3.2.1 _ (by decide)]; exact s2.1, fun binner hbi => ?_, fun hn => ?_⟩
+        · rw [hsrc] at hbi
+          cases hbi
+          exact ⟨binner0', bidirInner_exact he hb0, s3.1⟩
+        · rw [hsrc] at hn
+          cases hn
+    | none | bool _ | num _ _ | str _ | list _ =>
+      all_goals
+        simp only at hl3
+        cases hl3
+  refine ⟨?_, ?_, ?_⟩
+  · intro inner hi
+    rw [hinnerv] at hi
+    cases hi
+    exact ⟨inner0', bidirInner_exact he hinner0', by rw [efc, top4]; exact hback.1⟩
+  · intro binner hbi
+    obtain ⟨b', hb1, hb2⟩ := hback.2.1 binner hbi
+    exact ⟨b', hb1, by rw [efc, top4]; exact hb2⟩
+  · intro hn
+    rw [efc, top4]
+    exact hback.2.2 hn
+
+/-- bias-less per direction: an explicit backward layer without bias gets no bias quantizer even
+    when the entry names one (and the forward layer, having a bias, gets it) -/
+theorem C12_bidirectional_backward_biasless (F : Flags) (qc : Dict) (st st' : Option String) (l l' : PyVal)
+    (hcls : clsOf l = some (.str "Bidirectional")) (e kq : PyVal)
+    (he : getConfig qc l "QBidirectional" none = .ok e)
+    (hkq : paramOf e (some "kernel_quantizer") = .ok kq) (hne : kq ≠ .none)
+    (h : step F qc st l = .ok (l', st'))
+    (binner : PyVal) (bcn : String) (ub : PyVal) (hb : cfgGet l "backward_layer" = some binner)
+    (hbc : clsOf binner = some (.str bcn)) (hub : cfgGet binner "use_bias" = some ub)
+    (hf : truthy ub = false) :
+    ∃ binner', cfgGet l' "backward_layer" = some binner' ∧ cfgGet binner' "bias_quantizer" = some .none := by
+  obtain ⟨_, _, hback, _⟩ := C12_selected_bidirectional F qc st st' l l' hcls e kq he hkq hne h
+  obtain ⟨b', hb1, hb2⟩ := hback binner bcn hb hbc
+  obtain ⟨ub', hub', hfalse, _⟩ := hb2.bias
+  rw [hub] at hub'
+  cases hub'
+  exact ⟨b', hb1, hfalse hf⟩
+
+theorem bidirBranch_congr {F : Flags} {look₁ look₂ : Look} {st : Option String} {l : PyVal}
+    (hl : ∀ p, look₁ "QBidirectional" p = look₂ "QBidirectional" p) :
+    bidirBranch F look₁ st l = bidirBranch F look₂ st l := by
+  simp only [bidirBranch, bidirApply, bidirBackward, bidirInner, bidirSide, hl]
+
+/-- **Only the wrapper's own entry counts.**  Two dictionaries that give a Bidirectional wrapper
+    the same entry (under its name, else under `QBidirectional`) convert it identically: entries
+    under the names of the wrapped layers, `QLSTM` / `QGRU` / `QSimpleRNN` class entries and
+    everything else in the dictionary have no influence on either direction. -/
+theorem C12_bidirectional_entry_only (F : Flags) (qc₁ qc₂ : Dict) (st : Option String) (l e : PyVal)
+    (hcls : clsOf l = some (.str "Bidirectional"))
+    (h1 : getConfig qc₁ l "QBidirectional" none = .ok e)
+    (h2 : getConfig qc₂ l "QBidirectional" none = .ok e) :
+    step F qc₁ st l = step F qc₂ st l := by
+  have hl : ∀ p, getConfig qc₁ l "QBidirectional" p = getConfig qc₂ l "QBidirectional" p := by
+    intro p
+    cases p with
+    | none => rw [h1, h2]
+    | some p => rw [getConfig_param h1, getConfig_param h2]
+  have hc : sub l "class_name" = .ok (.str "Bidirectional") := sub_of_pget hcls
+  unfold step stepCore branch
+  cases hcfg : sub l "config" with
+  | error e => rfl
+  | ok c =>
+    simp only [hc, bind, Except.bind,
+      show ("Bidirectional" ∈ denseLike) = False by decide,
+      show ("Bidirectional" = "DepthwiseConv2D") = False by decide,
+      show ("Bidirectional" = "SeparableConv1D" ∨ "Bidirectional" = "SeparableConv2D") = False by decide,
+      show ("Bidirectional" = "SimpleRNN" ∨ "Bidirectional" = "LSTM" ∨ "Bidirectional" = "GRU") = False by decide,
+      if_false, if_true]
+    rw [bidirBranch_congr hl]
+
+/-- non-vacuity and regression witness for the two-direction theorems: forward `LSTM "fw"` with bias
+    and `tanh`, explicit backward `GRU "bw"` without bias and with `relu`, selected by a
+    `QBidirectional` class entry; the dictionary also has entries under `"bw"` and `QGRU`, which
+    must be ignored.  Both directions are converted, each on its own terms. -/
+def bidir2 : PyVal := .dict [("class_name", .str "Bidirectional"),
+  ("config", .dict [("name", .str "bi"), ("merge_mode", .str "concat"),
+    ("layer", .dict [("class_name", .str "LSTM"),
+      ("config", .dict [("name", .str "fw"), ("units", .num 2 0), ("use_bias", .bool true),
+        ("activation", .str "tanh"), ("go_backwards", .bool false)]), ("registered_name", .none)]),
+    ("backward_layer", .dict [("class_name", .str "GRU"),
+      ("config", .dict [("name", .str "bw"), ("units", .num 3 0), ("use_bias", .bool false),
+        ("activation", .str "relu"), ("go_backwards", .bool true)]), ("registered_name", .none)])]),
+  ("registered_name", .none), ("inbound_nodes", .list [])]
+def qcBidir2 : Dict := [("QBidirectional", .dict [("kernel_quantizer", .str "quantized_bits(4,0,1)"),
+    ("recurrent_quantizer", .str "quantized_bits(5,0,1)"), ("bias_quantizer", .str "quantized_bits(6,0,1)")]),
+  ("bw", .dict [("kernel_quantizer", .str "ternary()")]),
+  ("QGRU", .dict [("kernel_quantizer", .str "binary()")])]
+
+def sideView (l : PyVal) (side : String) : Option (Option PyVal × Option PyVal × Option PyVal × Option PyVal ×
+    Option PyVal × Option PyVal × Option PyVal) :=
+  (cfgGet l side).map fun s => (clsOf s, nameOf s, cfgGet s "kernel_quantizer", cfgGet s "recurrent_quantizer",
+    cfgGet s "bias_quantizer", cfgGet s "activation", cfgGet s "go_backwards")
+
+theorem C12_bidirectional_backward_witness :
+    (rewrite F0 qcBidir2 [bidir2]).toOption.map (fun ls => ls.map fun l =>
+      (clsOf l, sideView l "layer", sideView l "backward_layer")) =
+    some [(some (.str "QBidirectional"),
+      some (some (.str "QLSTM"), some (.str "fw"), some (.str "quantized_bits(4,0,1)"),
+        some (.str "quantized_bits(5,0,1)"), some (.str "quantized_bits(6,0,1)"),
+        some (.str "quantized_tanh(4)"), some (.bool false)),
+      some (some (.str "QGRU"), some (.str "bw"), some (.str "quantized_bits(4,0,1)"),
+        some (.str "quantized_bits(5,0,1)"), some .none,
+        some (.str "quantized_relu(4)"), some (.bool true)))] := by rfl
+
+example : clsOf bidir2 = some (.str "Bidirectional") ∧
+    getConfig qcBidir2 bidir2 "QBidirectional" none = .ok (.dict [("kernel_quantizer", .str "quantized_bits(4,0,1)"),
+      ("recurrent_quantizer", .str "quantized_bits(5,0,1)"), ("bias_quantizer", .str "quantized_bits(6,0,1)")]) :=
+  ⟨rfl, rfl⟩
 
 /-! ## non-vacuity of the per-branch "selected" theorems: concrete layers meeting the hypotheses,
     and what the model returns on them -/
